@@ -79,11 +79,6 @@ def nameOkRaw (c : Ctx) (name : List Char) (skipTest : Bool) : Bool :=
     let base := name.take (name.length - 3)
     selectedElems c (Str.hasSuffix "_test".toList base) elems skipTest
 
-def isValidTagChar (ch : Char) : Bool :=
-  ch.isAlphanum || ch == '_' || ch == '.' || ch.toNat > 127   -- unicode letters/digits are accepted too
-
-def isValidTag (w : List Char) : Bool := !w.isEmpty && w.all isValidTagChar
-
 /-- evaluate one word of a +build clause (constraint.parsePlusBuildExpr) -/
 def plusLitRaw (c : Ctx) (lit : List Char) : Bool :=
   if Str.hasPrefix "!!".toList lit || lit == ['!'] then matchWord c "ignore"
@@ -113,83 +108,22 @@ def splitPlusBuild (text : List Char) : Option (List Char) :=
     if rest2.length == rest.length && !rest.isEmpty then none
     else some rest2
 
-/-! `//go:build` expressions -/
-inductive BExpr where
-  | tag (s : String)
-  | not (e : BExpr)
-  | and (a b : BExpr)
-  | or (a b : BExpr)
-  deriving Repr, Inhabited
-
-def BExpr.eval (c : Ctx) : BExpr → Bool
+/-- toolchain evaluation of a `//go:build` expression: matchTag on every word -/
+def evalGoExpr (c : Ctx) : BExpr → Bool
   | .tag s => matchWord c s ||
       (match Build.classify s.toList with
        | some (.rel n) => decide (1 ≤ n ∧ n ≤ c.minor)
        | _ => false)
-  | .not e => !(e.eval c)
-  | .and a b => a.eval c && b.eval c
-  | .or a b => a.eval c || b.eval c
+  | .not e => !(evalGoExpr c e)
+  | .and a b => evalGoExpr c a && evalGoExpr c b
+  | .or a b => evalGoExpr c a || evalGoExpr c b
 
-inductive Tok where | lp | rp | andT | orT | notT | word (s : List Char) | bad
-  deriving Repr, BEq, Inhabited
-
-partial def lex (cs : List Char) (acc : List Tok) : List Tok :=
-  match cs with
-  | [] => acc.reverse
-  | ' ' :: r => lex r acc
-  | '\t' :: r => lex r acc
-  | '(' :: r => lex r (.lp :: acc)
-  | ')' :: r => lex r (.rp :: acc)
-  | '&' :: '&' :: r => lex r (.andT :: acc)
-  | '|' :: '|' :: r => lex r (.orT :: acc)
-  | '!' :: r => lex r (.notT :: acc)
-  | c :: r =>
-    if isValidTagChar c then
-      let w := (c :: r).takeWhile isValidTagChar
-      lex ((c :: r).dropWhile isValidTagChar) (.word w :: acc)
-    else (Tok.bad :: acc).reverse
-
-mutual
-  partial def parseOr (ts : List Tok) : Option (BExpr × List Tok) := do
-    let (a, r) ← parseAnd ts
-    orLoop a r
-  partial def orLoop (a : BExpr) (ts : List Tok) : Option (BExpr × List Tok) :=
-    match ts with
-    | .orT :: r => do let (b, r') ← parseAnd r; orLoop (.or a b) r'
-    | _ => some (a, ts)
-  partial def parseAnd (ts : List Tok) : Option (BExpr × List Tok) := do
-    let (a, r) ← parseNot ts
-    andLoop a r
-  partial def andLoop (a : BExpr) (ts : List Tok) : Option (BExpr × List Tok) :=
-    match ts with
-    | .andT :: r => do let (b, r') ← parseNot r; andLoop (.and a b) r'
-    | _ => some (a, ts)
-  partial def parseNot (ts : List Tok) : Option (BExpr × List Tok) :=
-    match ts with
-    | .notT :: .notT :: _ => none                        -- double negation not allowed
-    | .notT :: r => do let (a, r') ← parseNot r; some (.not a, r')
-    | .lp :: r => do
-        let (a, r') ← parseOr r
-        match r' with | .rp :: r'' => some (a, r'') | _ => none
-    | .word w :: r => some (.tag (Str.s w), r)
-    | _ => none
-end
-
-def parseGoBuild (text : List Char) : Option BExpr :=
-  match parseOr (lex text []) with
-  | some (e, []) => some e
-  | _ => none
-
-/-- is the `//` comment text a //go:build line; returns the expression text -/
-def splitGoBuild (text : List Char) : Option (List Char) :=
-  -- the raw line is TrimSpace'd first, so trailing blanks are gone; `//go:build` must be followed by space/tab or end
-  let t := Str.trimRight text
-  if !(Str.hasPrefix "go:build".toList t) then none
-  else match t.drop 8 with
-    | [] => some []
-    | ' ' :: r => some (Str.trim r)
-    | '\t' :: r => some (Str.trim r)
-    | _ => none
+/-- structured layer: the same over abstract tag names -/
+def evalG (c : Ctx) : GExpr → Bool
+  | .tag t => matchTag c t
+  | .not e => !(evalG c e)
+  | .and a b => evalG c a && evalG c b
+  | .or a b => evalG c a || evalG c b
 
 inductive Sel where | yes | no | err
   deriving Repr, DecidableEq
@@ -209,7 +143,7 @@ def shouldBuildRaw (c : Ctx) (groups : List (List Comment)) (lastBlank : Bool) :
   match gobuilds with
   | _ :: _ :: _ => .err
   | [e] => (match parseGoBuild e with
-      | some x => if x.eval c then .yes else .no
+      | some x => if evalGoExpr c x then .yes else .no
       | none => .err)
   | [] =>
     let oks := (groups.zip idx).all fun (g, i) =>
